@@ -418,7 +418,9 @@ func (b *BinaryExpr) SQL() string {
 
 func (u *UnaryExpr) SQL() string {
 	p := exprPrec(u)
-	return string(u.Op) + strOpt(u.Op == OpNot, " ") + paren(p, u.Expr)
+	e := paren(p, u.Expr)
+	// "-" directly followed by "-" would start a comment ("- -1", "- -x").
+	return string(u.Op) + strOpt(u.Op == OpNot || u.Op == OpMinus && strings.HasPrefix(e, "-"), " ") + e
 }
 
 func (i *InExpr) SQL() string {
